@@ -406,7 +406,7 @@ var gdFnElem = map[string]string{"internal/icolumn": "int", "internal/fcolumn": 
 // the dynamic types of interface{} values the translation distinguishes: Go type text -> constructor, payload
 type gdAnyType struct {
 	src, ctor string
-	ty       *gdT
+	ty        *gdT
 }
 
 var gdAnyTypes = []gdAnyType{
